@@ -64,6 +64,7 @@ func (p *players) Len() int {
 func (p *players) Range(fn func(p Player) bool) {
 	// Snapshot under the lock and call fn without it: the map must not be
 	// iterated after unlocking, and fn may add or remove players itself.
+	verifhook.Point("list.range.enter")
 	p.mu.RLock()
 	verifhook.Point("list.range.iter")
 	list := make([]*connectedPlayer, 0, len(p.list))
